@@ -81,6 +81,8 @@ func c10Jobs(thorough bool) []json.RawMessage {
 		{Name: "3x1-max2-wait", N: 3, M: 1, MaxConns: 2, Wait: true},
 		{Name: "2x2-max2-nowait", N: 2, M: 2, MaxConns: 2},
 		{Name: "2x1-max1-wait-reqtimeout", N: 2, M: 1, MaxConns: 1, Wait: true, ReqTO: true},
+		{Name: "2x1-max1-wait-shortreqtimeout", N: 2, M: 1, MaxConns: 1, Wait: true, ReqTO: true, ShortReqTO: true},
+		{Name: "1x3-max1-reuse-head", N: 1, M: 3, MaxConns: 1, ReuseHead: true},
 	}
 	if thorough {
 		scs = append(scs, c10.Scenario{Name: "3x2-max2-wait", N: 3, M: 2, MaxConns: 2, Wait: true})
@@ -137,7 +139,7 @@ func c10Jobs(thorough bool) []json.RawMessage {
 		add(c10.Job{Sc: sc, Plan: c10.Plan{Answers: ok}, Bound: bound})
 		// one fault anywhere
 		for i := 0; i < k; i++ {
-			for a := 1; a < 7; a++ {
+			for _, a := range []int{1, 2, 3, 4, 5, 6, c10.AOkCloseCap} {
 				p := append([]int{}, ok...)
 				p[i] = a
 				add(c10.Job{Sc: sc, Plan: c10.Plan{Answers: p}, Bound: bound})
